@@ -8,6 +8,7 @@ import (
 	"io/fs"
 	"sort"
 	"strings"
+	"sync"
 )
 
 func verifHex(s string) string {
@@ -93,4 +94,35 @@ func (f *MemFile) VerifHandle() string {
 	}
 
 	return fmt.Sprintf("at=%d closed=%v idx=%d", f.at, f.nd == nil, f.dirIndex)
+}
+
+// VerifLockNode locks the node a path designates (the last element is not followed when it is a symbolic link),
+// exclusively or shared, and returns the function releasing it (verification hook: lets a harness stall
+// concurrent calls at a chosen lock).
+func (vfs *MemFS) VerifLockNode(path string, write bool) (func(), error) {
+	_, child, _, err := vfs.searchNode(path, slmLstat)
+	if err != vfs.err.FileExists || child == nil {
+		return nil, err
+	}
+
+	var mu *sync.RWMutex
+
+	switch c := child.(type) {
+	case *dirNode:
+		mu = &c.mu
+	case *fileNode:
+		mu = &c.mu
+	case *symlinkNode:
+		mu = &c.mu
+	}
+
+	if write {
+		mu.Lock()
+
+		return mu.Unlock, nil
+	}
+
+	mu.RLock()
+
+	return mu.RUnlock, nil
 }
